@@ -139,13 +139,19 @@ fn log_inner(c: InnerCall) {
     INNER_LOG.with(|l| l.borrow_mut().push(c));
 }
 
-/// Serves from the System allocator and logs every request with its layout, pointers and return value.
+/// Serves from the System allocator and logs every request with its layout, pointers and return value.  Requests whose
+/// (new) size is a "refusal size" (size % 64 == 61) are refused like an exhausted allocator would: null is returned, a block
+/// being reallocated stays valid.  A refused request is still a request: it is forwarded, logged and must be counted.
 struct Recorder;
+
+fn refused(size: usize) -> bool {
+    size % 64 == 61
+}
 
 // SAFETY: every method forwards to System with the arguments it was given.
 unsafe impl GlobalAlloc for Recorder {
     unsafe fn alloc(&self, layout: Layout) -> *mut u8 {
-        let r = unsafe { System.alloc(layout) };
+        let r = if refused(layout.size()) { std::ptr::null_mut() } else { unsafe { System.alloc(layout) } };
         log_inner(InnerCall { m: "alloc", size: layout.size(), align: layout.align(), ptr: 0, nsize: 0, ret: r as usize });
         r
     }
@@ -154,12 +160,12 @@ unsafe impl GlobalAlloc for Recorder {
         unsafe { System.dealloc(ptr, layout) }
     }
     unsafe fn alloc_zeroed(&self, layout: Layout) -> *mut u8 {
-        let r = unsafe { System.alloc_zeroed(layout) };
+        let r = if refused(layout.size()) { std::ptr::null_mut() } else { unsafe { System.alloc_zeroed(layout) } };
         log_inner(InnerCall { m: "alloc_zeroed", size: layout.size(), align: layout.align(), ptr: 0, nsize: 0, ret: r as usize });
         r
     }
     unsafe fn realloc(&self, ptr: *mut u8, layout: Layout, new_size: usize) -> *mut u8 {
-        let r = unsafe { System.realloc(ptr, layout, new_size) };
+        let r = if refused(new_size) { std::ptr::null_mut() } else { unsafe { System.realloc(ptr, layout, new_size) } };
         log_inner(InnerCall { m: "realloc", size: layout.size(), align: layout.align(), ptr: ptr as usize, nsize: new_size, ret: r as usize });
         r
     }
@@ -444,6 +450,12 @@ fn run(tr: &Tracer, id: usize, b: &Behaviour) {
 /// Sizes are kept small enough for every total the judge computes to stay below 2^31 (TLC integers are 32-bit;
 /// TLC reports an overflow as an error, it never wraps silently).
 fn real_size(rng: &mut Rng, class: u64) -> usize {
+    let s = plain_size(rng, class);
+    // one request in ten is one the wrapped allocator refuses
+    if rng.chance(1, 10) { s / 64 * 64 + 61 } else { s }
+}
+
+fn plain_size(rng: &mut Rng, class: u64) -> usize {
     match class {
         0 => 1 + rng.below(2048) as usize,
         1 => 1 + rng.below(64) as usize,
